@@ -1,6 +1,7 @@
 import Driver.Util
 import LiquidVerif.Model.Printer
-open Lean LiquidVerif.BoolParse LiquidVerif.Printer
+import LiquidVerif.Model.ExprParse
+open Lean LiquidVerif.BoolParse LiquidVerif.Printer LiquidVerif.ExprParse
 
 namespace Driver.C04
 
@@ -223,8 +224,95 @@ def handlePath (args : List Json) : Json :=
     | none => jerr "bad-path"
   | _ => jerr "bad-args"
 
+/-! ### deepening: expression tokens -/
+
+def kwKinds : List String :=
+  ["true", "false", "nil", "null", "empty", "blank", "and", "or", "contains", "not", "in", "offset",
+   "limit", "reversed", "cols", "continue", "with", "for", "as", "if", "else", "required"]
+
+/-- `[kind, value]` as yielded by the real `tokenize` -/
+def xtokOf (j : Json) : Option XTok :=
+  match asArr? j with
+  | some [.str kind, .str value] =>
+    if kwKinds.contains kind then some (.kw kind) else
+    match kind with
+    | "word" => some (.word value)
+    | "identstring" => some (.identstring value)
+    | "identindex" => value.toInt?.map XTok.identindex
+    | "lbracket" => some .lbracket | "rbracket" => some .rbracket | "dot" => some .dot
+    | "string" => some (.str value)
+    | "integer" => value.toInt?.map XTok.int
+    | "float" => some (.float value)
+    | "rangeexpression" => some .rangelit | "range" => some .range
+    | "lparen" => some .lparen | "rparen" => some .rparen
+    | "colon" => some .colon | "comma" => some .comma | "pipe" => some .pipe | "dpipe" => some .dpipe
+    | "eq" => some (.op .eq) | "ne" => some (.op .ne) | "lt" => some (.op .lt) | "gt" => some (.op .gt)
+    | "le" => some (.op .le) | "ge" => some (.op .ge) | "ltgt" => some .lg | "assign" => some .assign
+    | _ => none
+  | _ => none
+
+def xtokJson : XTok → Json
+  | .word s => jarr [jstr "word", jstr s]
+  | .identstring s => jarr [jstr "identstring", jstr s]
+  | .identindex i => jarr [jstr "identindex", jstr (toString i)]
+  | .lbracket => jstr "lbracket" | .rbracket => jstr "rbracket" | .dot => jstr "dot"
+  | .str v => jarr [jstr "string", jstr v]
+  | .int i => jarr [jstr "integer", jstr (toString i)]
+  | .float t => jarr [jstr "float", jstr t]
+  | .kw k => jstr k
+  | .rangelit => jstr "rangeexpression" | .range => jstr "range" | .lparen => jstr "lparen" | .rparen => jstr "rparen"
+  | .colon => jstr "colon" | .comma => jstr "comma" | .pipe => jstr "pipe" | .dpipe => jstr "dpipe"
+  | .op c => jstr (cmpStr c) | .lg => jstr "ltgt" | .assign => jstr "assign"
+
+partial def primJson : Prim → Json
+  | .nil => jarr [jstr "nil"] | .tru => jarr [jstr "true"] | .fals => jarr [jstr "false"]
+  | .empty => jarr [jstr "empty"] | .blank => jarr [jstr "blank"]
+  | .int i => jarr [jstr "int", jstr (toString i)]
+  | .float t => jarr [jstr "float", jstr t]
+  | .str v => jarr [jstr "str", jstr v]
+  | .range a b => jarr [jstr "range", primJson a, primJson b]
+  | .path p => jarr [jstr "path", jarr (segsJson p)]
+  | .word s => jarr [jstr "word", jstr s]
+
+def optPrimJson : Option Prim → Json
+  | some p => primJson p
+  | none => Json.null
+
+def loopJson (l : LoopX) : Json :=
+  jarr [jstr l.ident, primJson l.iterable, optPrimJson l.limit, optPrimJson l.offset, optPrimJson l.cols, Json.bool l.reversed]
+
+def argJson (a : Arg) : Json :=
+  jarr [match a.name with | some n => jstr n | none => Json.null, primJson a.val]
+
+def filtersJson (fs : List Filter) : Json :=
+  jarr (fs.map fun f => jarr [jstr f.name, jarr (f.args.map argJson)])
+
+/-- `["c04_xloop", [[kind,value]…]]` → model `LoopExpression.parse` (tree or null) and, when it parses, the
+model's tokens of its `__str__` -/
+def handleXLoop (args : List Json) : Json :=
+  match args with
+  | [ts] => match (asArr? ts).bind (mapM? xtokOf) with
+    | some toks => match loopParse toks with
+      | some l => Json.mkObj [("tree", loopJson l), ("str_toks", jarr ((tokLoop l).map xtokJson)), ("text", jstr (strLoop l))]
+      | none => Json.mkObj [("tree", Json.null)]
+    | none => jerr "bad-tokens"
+  | _ => jerr "bad-args"
+
+/-- `["c04_xfilt", [[kind,value]…]]` → model `FilteredExpression.parse` for expressions without `if` -/
+def handleXFilt (args : List Json) : Json :=
+  match args with
+  | [ts] => match (asArr? ts).bind (mapM? xtokOf) with
+    | some toks =>
+      match filteredParse (C := Unit) (fun _ => none) toks with
+      | some (.filtered l fs) =>
+        Json.mkObj [("tree", jarr [jstr "filtered", primJson l, filtersJson fs]),
+                    ("str_toks", jarr ((tokFExpr (C := Unit) (fun _ => []) (.filtered l fs)).map xtokJson))]
+      | _ => Json.mkObj [("tree", Json.null)]
+    | none => jerr "bad-tokens"
+  | _ => jerr "bad-args"
+
 def commands : List (String × (List Lean.Json → Lean.Json)) :=
   [("c04_print", handlePrint), ("c04_bool", handleBool), ("c04_parse", handleParse), ("c04_str", handleStr),
-   ("c04_path", handlePath)]
+   ("c04_path", handlePath), ("c04_xloop", handleXLoop), ("c04_xfilt", handleXFilt)]
 
 end Driver.C04
